@@ -60,7 +60,14 @@ def routeOk (t : List Act) : Bool :=
   (given == 0 || (t.dropWhile (· != .chsend "IQResultRoute.result")) ==
       [.chsend "IQResultRoute.result", .chclose "IQResultRoute.result", .call "return "]) &&
   -- the handler's path returns right after the handler
-  (handled == 0 || (t.dropWhile (· != .call "Handler.HandlePacket")).length == 2)
+  (handled == 0 || (t.dropWhile (· != .call "Handler.HandlePacket")).length == 2) &&
+  -- the order of `Model.C06.route`: the stream-management hook for <a/>, then the pending-request table, then the
+  -- ordinary routes, then the automatic error - nothing of an earlier stage after a later one
+  noneAfter (· == .lock "Router.IQResultRouteLock") (· == .call "SendMissingStz") t &&
+  noneAfter (· == .call "Router.Match") (fun a => a == .lock "Router.IQResultRouteLock" || a == .call "SendMissingStz") t &&
+  noneAfter (fun a => a == .call "Handler.HandlePacket" || a == .call "iqNotImplemented") (· == .call "Router.Match") t &&
+  -- a handler runs only after a match was looked for; the automatic error only after none was found
+  (handled == 0 || t.contains (.call "Router.Match")) && (refused == 0 || t.contains (.call "Router.Match"))
 
 theorem route_every_path : allTraces (get "Router.route") routeOk = true := by decide +kernel
 
